@@ -77,4 +77,11 @@ let c10_kw_model args =
      | _ -> L [A "none"])
   | _ -> raise (Bad "c10_kw_model args")
 
-let () = register "c10_lex" c10_lex; register "c10_cls" c10_cls; register "c10_kw" c10_kw; register "c10_kw_model" c10_kw_model
+(* (c10_ts_parse TEXT) -> (some nN) = N declarations of the TypeScript declaration grammar | none *)
+let c10_ts_parse args =
+  match args with
+  | [text] -> of_opt (fun n -> A ("n" ^ string_of_int (int_of_nat n))) (Model.c10_ts_recognise (to_str text))
+  | _ -> raise (Bad "c10_ts_parse args")
+
+let () = register "c10_lex" c10_lex; register "c10_cls" c10_cls; register "c10_kw" c10_kw; register "c10_kw_model" c10_kw_model;
+  register "c10_ts_parse" c10_ts_parse
